@@ -1,5 +1,5 @@
 #!/usr/bin/env python3
-"""usage: record_seeded.py <mutation dir> <seeded id> <Cxx> [<Cyy> ...]
+"""usage: record_seeded.py <mutation dir> <seeded id> (<Cxx> [<Cyy> ...] | --log <output of try_mutation.sh>)
 Confirms a seeded change in a scratch worktree (tools/try_mutation.sh) and, when it is
 confirmed (suite green with the change, demonstration fails with it and passes without it),
 records it under /verif/seeded/<id>/ with what was run and which checks reported it."""
@@ -15,9 +15,13 @@ VERIF = os.path.dirname(os.path.dirname(os.path.abspath(__file__)))
 
 def main():
     mdir, sid, checks = sys.argv[1], sys.argv[2], sys.argv[3:]
-    p = subprocess.run([os.path.join(VERIF, "tools", "try_mutation.sh"), mdir] + checks,
-                       capture_output=True, text=True)
-    out = p.stdout + p.stderr
+    if checks and checks[0] == "--log":
+        # the trial was already run: tools/try_mutation.sh <mdir> ... > <log>
+        out = open(checks[1]).read()
+    else:
+        p = subprocess.run([os.path.join(VERIF, "tools", "try_mutation.sh"), mdir] + checks,
+                           capture_output=True, text=True)
+        out = p.stdout + p.stderr
     m0 = re.search(r"demo without change: exit (\d+)", out)
     m1 = re.search(r"demo with change: exit (\d+)", out)
     suite = re.search(r"(\d+) passed", out)
